@@ -18,7 +18,9 @@ RULE = ("plus a CLI stage: every packet-scan command line (tcp, tcp --flags <sev
         "x/net/bpf VM on frames built relative to the range (valid replies; source just inside/outside the net; ports at "
         "range edges and just outside; every flag pattern incl. single-bit flips and NS; IP options; TCP options; payload; "
         "padding; IP and TCP option blocks swept over 0..40 bytes each; payloads up to the MTU; every ICMP type near 8; fragments; other protocols; IPv6 with and without fragment header; IP-in-IP; "
-        "VLAN; truncations; malformed options); accepted frames go through the REAL ProcessPacketData; evaluations = "
+        "VLAN; truncations; malformed options); plus port specifications at the ends of the port space (1-65535, 0-65535, 2-65535, "
+        "1-65534, 65535, 1, 0, alone and mixed with other ranges, parsed by the real -p parser) with replies from source port 0, 1, "
+        "65535 and at / next to every range edge; accepted frames go through the REAL ProcessPacketData; evaluations = "
         "frames; non-trivial = well-formed unfragmented frame (the property's domain); distinct by (command, link, range, frame)")
 
 CLASS = {"tcp syn": "syn", "tcp --flags": "tcp", "tcp fin": "tcp", "tcp null": "tcp", "tcp xmas": "tcp",
@@ -375,6 +377,8 @@ def report(ctx, case, fo, why, seen):
            "subnet": case["subnet"], "ports": case["ports"], "frames": frames}
     if case.get("e2e"):
         inp["e2e"] = True
+    if case.get("spec"):
+        inp["port_spec"] = "-p " + case["spec"]
     if case.get("cli"):
         inp["cli"] = {"name": case["cmd"], "tun": bool(case.get("vpn"))}
     path = ctx.write_replay(re.sub(r"\W+", "-", key), {
@@ -429,6 +433,14 @@ def run(ctx):
                                         "-wiring", os.path.join(ctx.work, "wiring.json")], timeout=3000)
         if ok:
             rows += ctx.read_jsonl(os.path.join(ctx.work, "cases.jsonl"))
+        # edge stage (always on, < 1 s): -p texts at the ends of the port space (1-65535, 0-65535, 2-65535, 1-65534, 65535, 1, 0,
+        # the whole space mixed with other ranges, ranges that only together cover everything), parsed by the real -p parser;
+        # replies with source port 0, 1, 65535 and at / next to every range edge. Same path, same judge (the property: reported
+        # iff reply-shaped, which includes "source port is one of the scanned ports"), same model evaluation as the other cases.
+        ok, _ = ctx.harness_run("c03", ["-out", "edges.jsonl", "-edges", "-seed", ctx.seed, "-per", 12,
+                                        "-wiring", os.path.join(ctx.work, "wiring.json")], timeout=600)
+        if ok:
+            rows += ctx.read_jsonl(os.path.join(ctx.work, "edges.jsonl"))
     rows = [r for r in rows if not r.get("comperr") or ctx.skipped.append("libpcap rejects %r: %s" % (r["text"][:80], r["comperr"]))]
     af = {w["cmd"]: w["allflags"] for w in ws}
     for c in rows:
